@@ -74,6 +74,7 @@ func checkC12(cx *Ctx, r *Report) {
 	// storage is asked with the request's context (which carries the issuer / tenant in effect): keys, providers and
 	// users are those of this request
 	cx.checkStorageContext(r)
+	cx.checkStorageIsTheApplications(r)
 	// request data must not be shared between requests through recycled buffers (R-POOL, see C15)
 	cx.checkPoolEscape(r)
 	r.Clauses = []string{
